@@ -60,9 +60,9 @@ class Skip(Exception):
 
 
 class World:
-    def __init__(self):
+    def __init__(self, fs=None):
         self.heap = {}
-        self.fs = simfs.SimFS()
+        self.fs = fs if fs is not None else simfs.SimFS()
         simfs.install()
         simfs.use(self.fs)
         self.next_handle = 0  # generator side only
